@@ -144,6 +144,12 @@ parseSegments:
 		return md, nil
 	}
 
+	// An error recorded while collecting the chunks must not be replaced by
+	// whatever data happened to be collected.
+	if _, iccErr := md.ICCProfileData(); iccErr != nil {
+		return md, nil
+	}
+
 	iccProfileData := bytes.Buffer{}
 	for i := range iccProfileChunks {
 		iccProfileData.Write(iccProfileChunks[i])
